@@ -11,7 +11,15 @@ TRUSTED = [
     " the ProcessDocuments loop, the docs payload, extractDocTime/parseESTime/documentDelayed/TimeToMID, and ModelMeta.v of"
     " MetaData.MarshalBinaryTo/UnmarshalBinary/marshalAppendMeta"
     " (tied to /repo by the correspondence run, not verified code)",
-    "Go harness harness/cmd/hC10 (generators, recording StorageClient, payload decoder, oracle table)",
+    "hand-written model props/C10/coq/ModelOwn.v: transcription of Ingestor.ProcessDocuments / processDocsToCompressor as the sequence of"
+    " Get / Put / Write / Read actions on the pooled objects (compressor, binaryDocs, binaryMetas, processor, rate-limit ticket) with the"
+    " defers where the code has them, for every exit path; sync.Pool as 'any pooled object or a new one'; memory model of the hand-over to"
+    " the embedded store (compressor buffers, slices.Clone of Metas in inMemoryAPIClient.Bulk, Active.Append: docs and metas written to"
+    " the files before the call returns, the metas block queued, appendWorker reading it later; compression = identity). Tied to /repo by"
+    " the exit-path-* classes (pools drained before/after a real ProcessDocuments call through add-only exports"
+    " frac/export_verif_c10.go, proxy/bulk/export_verif_c10.go) and the single-mode class, not verified code",
+    "Go harness harness/cmd/hC10 (generators, recording StorageClient, payload decoder, oracle table; own.go: pool draining in a"
+    " single-P child with the collector off, gate on the schedule point verifhook append.start of the real index worker)",
     "JSON grammar: NOT modelled. Class of a line (object / other value / invalid) = encoding/json where it says valid,"
     " otherwise the decoder library (insane-json) itself; time.Parse(RFC3339/RFC3339Nano) and time.Date as standard-library oracles",
     "gzip, net/http, zstd block compression, tokenizers and meta token lists: outside the model (exercised, not specified)",
@@ -21,6 +29,10 @@ ASSUME = [
     " (the real value is only checked to lie inside the wall-clock bracket of the call)",
     "buffer size B >= 2 in the framing theorem (the code has B = max(maxDocumentSize, 16))",
     "drift, futureDrift in [0, MaxInt64) in the time theorem",
+    "exit-path classes: with an already cancelled context the Go runtime chooses between `case <-ctx.Done()` and the ticket at random;"
+    " the case records the branch that was taken (so the same seed may yield a different mix of these two paths)",
+    "single-mode class: one index worker, index queue of length 1 (conf.IndexWorkers = 1), child process with one P so that sync.Pool"
+    " hands the compressor just put back to the next bulk; other replicas / the gRPC client marshal the request and are not concerned",
 ]
 RULE = ("generated request bodies, line-wise: action/document pairs with LF/CRLF, blank lines, missing final newline, bad/over-long/"
         "dangling action lines; documents of sizes B-4..B+3 and multiples of B, JSON objects of many shapes (escapes, unicode, nested), "
@@ -31,7 +43,13 @@ RULE = ("generated request bodies, line-wise: action/document pairs with LF/CRLF
         "(0-2 accepted requests without surviving document, then one request held inside StoreDocuments while 1-3 others run to completion, "
         "then sequential ones; GOMAXPROCS default/1/2; gzip and plain mixed; the held request blocks inside StoreDocuments or inside its body "
         "reader after 0..k lines); 300 requests whose body reader breaks (unexpected EOF, connection error, timeout; plain and cut gzip) "
-        "at start / after a document line / after an action line / inside a line / at the end. non-trivial = body with >= 2 lines exercising at least one "
+        "at start / after a document line / after an action line / inside a line / at the end; histories start with 0-2 early-ending requests "
+        "(no surviving document / body reader breaks / unparsable document line / cancelled context) before the held and overlapping ones; "
+        "250 single calls of the real ProcessDocuments per quick run along every exit path (limit exceeded, ctx done at the rate limiter, read "
+        "error / unparsable document after 0-5 documents, no surviving document, StoreDocuments error, success) with all four pools drained "
+        "before and after and the tickets counted; 40 single-mode schedules per quick run (2-5 small bulks through the real ingestor -> SeqDBClient "
+        "-> in-memory client -> store, the only index worker let through one queued block at chosen points, up to two bulks compressed while an "
+        "earlier one is still queued; equal- and different-length blocks), every document fetched by ID. non-trivial = body with >= 2 lines exercising at least one "
         "such feature; distinct by request")
 
 
